@@ -134,13 +134,14 @@ theorem getDag_eq_csrOfRows (n : Nat) (edge : Nat → Nat → Bool) (order : Lis
     getDag n edge order =
       csrOfRows (rowsOf n ((dagLoop order order.eraseDups (entriesOf n edge)).filter (·.keep))) := rfl
 
-/-- the kernel on the DAG that `get_dag` builds from `order` returns the recursive count of the orientation
-    `edge i j ∧ 0 ≤ order i < order j` on all nodes -/
-theorem cliquesFrom_getDag (n : Nat) (edge : Nat → Nat → Bool) (order : List Int) (hlen : order.length = n)
-    (k : Nat) (hk : 2 ≤ k) :
-    (cliquesFrom (getDag n edge order).indptr k (getDag n edge order).indices
-        (boxInit (getDag n edge order).indptr k)).1 =
-      orientedCount (fun i j => edge i j && keepPred order i j) k (List.range n) := by
+/-- the box of `ListingBox.__cinit__` and the DAG of `get_dag` satisfy the invariant of the top level -/
+theorem top_level_inv (n : Nat) (edge : Nat → Nat → Bool) (order : List Int) (hlen : order.length = n) (k : Nat) :
+    KernelCtx (getDag n edge order).indptr n (getDag n edge order).indices.length
+        (maxDegOf (getDag n edge order).indptr) ∧
+      LevelInv (getDag n edge order).indptr (fun i j => edge i j && keepPred order i j) k n
+        (maxDegOf (getDag n edge order).indptr) (getDag n edge order).indices.length k
+        (getDag n edge order).indices (boxInit (getDag n edge order).indptr k) ∧
+      subList (boxInit (getDag n edge order).indptr k) k = List.range n := by
   have hn : (getDag n edge order).indptr.length - 1 = n := getDag_nodes n edge order
   generalize hrows : rowsOf n ((dagLoop order order.eraseDups (entriesOf n edge)).filter (·.keep)) = rows
   have hrl : rows.length = n := by rw [← hrows, rowsOf_length]
@@ -156,36 +157,43 @@ theorem cliquesFrom_getDag (n : Nat) (edge : Nat → Nat → Bool) (order : List
         indptrOf_mono rows v hv
       omega)
     rw [hrl] at this; exact this
-  have spec := cliquesFrom_spec (csrOfRows rows).indptr (fun i j => edge i j && keepPred order i j) k n
-    (maxDegOf (csrOfRows rows).indptr) (csrOfRows rows).indices.length K (k - 2) (by omega)
+  have hsl : subList (boxInit (csrOfRows rows).indptr k) k = List.range n := by rw [boxInit_subList, hn]
+  refine ⟨K, ?_, hsl⟩
+  have hsh := boxInit_shape (csrOfRows rows).indptr k
+  rw [hn] at hsh
+  refine ⟨hsh, rfl, by rw [hsl]; exact List.nodup_range, ?_, ?_, ?_, ?_⟩
+  · intro v hv; rw [hsl] at hv; exact List.mem_range.1 hv
+  · intro v hv; rw [hsl] at hv
+    have hv' := List.mem_range.1 hv
+    rw [boxInit_deg _ _ _ (by rw [hn]; exact hv')]
+    have := K.mono v (v+1) (by omega) (by omega)
+    omega
+  · intro v hv; rw [hsl] at hv ⊢
+    have hv' := List.mem_range.1 hv
+    unfold prefOf
+    rw [boxInit_deg _ _ _ (by rw [hn]; exact hv')]
+    have hm := K.mono v (v+1) (by omega) (by omega)
+    have : (csrOfRows rows).indptr.getD v 0 + ((csrOfRows rows).indptr.getD (v+1) 0 - (csrOfRows rows).indptr.getD v 0)
+        = (csrOfRows rows).indptr.getD (v+1) 0 := by omega
+    rw [this]
+    have := hrow v hv'
+    unfold Dag.row at this
+    rw [this]
+  · intro v hv; rw [hsl] at hv
+    exact boxInit_labAt _ _ _ (by rw [hn]; exact List.mem_range.1 hv)
+
+/-- the kernel on the DAG that `get_dag` builds from `order` returns the recursive count of the orientation
+    `edge i j ∧ 0 ≤ order i < order j` on all nodes -/
+theorem cliquesFrom_getDag (n : Nat) (edge : Nat → Nat → Bool) (order : List Int) (hlen : order.length = n)
+    (k : Nat) (hk : 2 ≤ k) :
+    (cliquesFrom (getDag n edge order).indptr k (getDag n edge order).indices
+        (boxInit (getDag n edge order).indptr k)).1 =
+      orientedCount (fun i j => edge i j && keepPred order i j) k (List.range n) := by
+  obtain ⟨K, inv, hsl⟩ := top_level_inv n edge order hlen k
+  have spec := cliquesFrom_spec (getDag n edge order).indptr (fun i j => edge i j && keepPred order i j) k n
+    (maxDegOf (getDag n edge order).indptr) (getDag n edge order).indices.length K (k - 2) (by omega)
   have hk2 : k - 2 + 2 = k := by omega
   rw [hk2] at spec
-  have hsl : subList (boxInit (csrOfRows rows).indptr k) k = List.range n := by rw [boxInit_subList, hn]
-  have inv : LevelInv (csrOfRows rows).indptr (fun i j => edge i j && keepPred order i j) k n
-      (maxDegOf (csrOfRows rows).indptr) (csrOfRows rows).indices.length k (csrOfRows rows).indices
-      (boxInit (csrOfRows rows).indptr k) := by
-    have hsh := boxInit_shape (csrOfRows rows).indptr k
-    rw [hn] at hsh
-    refine ⟨hsh, rfl, by rw [hsl]; exact List.nodup_range, ?_, ?_, ?_, ?_⟩
-    · intro v hv; rw [hsl] at hv; exact List.mem_range.1 hv
-    · intro v hv; rw [hsl] at hv
-      have hv' := List.mem_range.1 hv
-      rw [boxInit_deg _ _ _ (by rw [hn]; exact hv')]
-      have := K.mono v (v+1) (by omega) (by omega)
-      omega
-    · intro v hv; rw [hsl] at hv ⊢
-      have hv' := List.mem_range.1 hv
-      unfold prefOf
-      rw [boxInit_deg _ _ _ (by rw [hn]; exact hv')]
-      have hm := K.mono v (v+1) (by omega) (by omega)
-      have : (csrOfRows rows).indptr.getD v 0 + ((csrOfRows rows).indptr.getD (v+1) 0 - (csrOfRows rows).indptr.getD v 0)
-          = (csrOfRows rows).indptr.getD (v+1) 0 := by omega
-      rw [this]
-      have := hrow v hv'
-      unfold Dag.row at this
-      rw [this]
-    · intro v hv; rw [hsl] at hv
-      exact boxInit_labAt _ _ _ (by rw [hn]; exact List.mem_range.1 hv)
   rw [(spec _ _ inv).1, hsl]
 
 end SkNet.Topology
